@@ -106,11 +106,17 @@ func usedDecode(c *engine.Ctx, callKey string, old, cur *prepared, mode int) boo
 		if pi != nil || err != nil {
 			return true // judged by the round-trip part
 		}
+		// the caller keeps a copy of the VALUE it had (old := *d) before loading new data into the variable
+		kept := *recv
 		pi = c.Call(callKey+"|GobDecode(new over old)", func() { err = recv.GobDecode(encCur) })
 		if fail("GobDecode", err, pi) {
 			return false
 		}
 		c.Obs("used:receiver_decoded_before", 1)
+		c.Obs("used:value_copied_before_the_reload_still_the_old_automaton", 1)
+		if !compareCopyW(c, false, path+"|value-copied-before-the-reload", w, callKey, &kept, old.set, old.probes, old.d, old.nodes, old.enc, old.queries[:1], det) {
+			return false
+		}
 	case 2: // old, then the new data twice in a row
 		recv = new(dawg.Dawg)
 		pi = c.Call(callKey+"|GobDecode(old)", func() { err = recv.GobDecode(encOld) })
